@@ -75,17 +75,28 @@ pub struct InputCfg {
     pub conds: Vec<(u64, CondSpec)>,
 }
 
-/// `<key index>:<mod mask>` of a preset.
+/// `<key index>:<mod mask>`.
 pub type KeyMod = (usize, u8);
+
+/// A field of a preset: `<k>:<m>` key, `y<k>:<m>` key carrying its own `SwizzleAxis::YXZ`, `s0|s1` nested stick preset,
+/// `x<axis>` gamepad axis, `b<button>` gamepad button.
+#[derive(Clone, Copy, Debug)]
+pub enum Field {
+    Key(KeyMod),
+    KeyY(KeyMod),
+    Stick(u8),
+    Axis(usize),
+    Btn(usize),
+}
 
 /// One item of an `act` block handed to `ActionBind::to`.
 #[derive(Clone, Debug)]
 pub enum Item {
     In(InputCfg),
     /// north east south west
-    Cardinal([KeyMod; 4]),
+    Cardinal([Field; 4]),
     /// positive negative
-    Bidir([KeyMod; 2]),
+    Bidir([Field; 2]),
     /// 0 = left, 1 = right
     Stick(u8),
 }
@@ -253,12 +264,26 @@ fn key_mod(s: &str) -> Option<KeyMod> {
     Some((parse_idx(k, MAX_KEY)?, parse_idx(m, MAX_MODMASK)? as u8))
 }
 
+fn field(s: &str) -> Option<Field> {
+    Some(if let Some(rest) = s.strip_prefix('y') {
+        Field::KeyY(key_mod(rest)?)
+    } else if s == "s0" {
+        Field::Stick(0)
+    } else if s == "s1" {
+        Field::Stick(1)
+    } else if let Some(rest) = s.strip_prefix('x') {
+        Field::Axis(parse_idx(rest, MAX_PADAXIS)?)
+    } else if let Some(rest) = s.strip_prefix('b') {
+        Field::Btn(parse_idx(rest, MAX_PADBTN)?)
+    } else {
+        Field::Key(key_mod(s)?)
+    })
+}
+
 fn parse_preset(t: &[&str]) -> Option<Item> {
     Some(match t {
-        ["cardinal", n, e, s, w] => {
-            Item::Cardinal([key_mod(n)?, key_mod(e)?, key_mod(s)?, key_mod(w)?])
-        }
-        ["bidir", p, n] => Item::Bidir([key_mod(p)?, key_mod(n)?]),
+        ["cardinal", n, e, s, w] => Item::Cardinal([field(n)?, field(e)?, field(s)?, field(w)?]),
+        ["bidir", p, n] => Item::Bidir([field(p)?, field(n)?]),
         ["stick", "0"] => Item::Stick(0),
         ["stick", "1"] => Item::Stick(1),
         _ => return None,
